@@ -39,15 +39,15 @@ func ruleC03Translate(c *ctx.Ctx, r *core.Reporter) {
 	type want struct{ key, fn, path, text, descr string }
 	for _, w := range []want{
 		{"send", "funcContext.translateStmt", "type:*ast.SendStmt", "$send", "a send statement calls $send"},
-		{"recv", "funcContext.translateExpr", "e.Op:token.ARROW", "$recv", "a receive expression calls $recv"},
+		{"recv", "funcContext.translateExpr", "_.Op:token.ARROW", "$recv", "a receive expression calls $recv"},
 		{"select", "funcContext.translateStmt", "type:*ast.SelectStmt", "$select", "a select statement calls $select"},
 		{"select:default", "funcContext.translateStmt", "type:*ast.SelectStmt/type:nil", "[]", "the default case is encoded as an empty array"},
 		{"select:send", "funcContext.translateStmt", "type:*ast.SelectStmt/type:*ast.SendStmt", "[⟨0⟩, ⟨1⟩]", "a send case is encoded as [channel, value]"},
 		{"go", "funcContext.translateStmt", "type:*ast.GoStmt", "$go(⟨0⟩, ⟨1⟩);", "a go statement hands the callable and its evaluated arguments to $go"},
-		{"close", "funcContext.translateBuiltin", `name:"close"`, "$close(⟨0⟩)", "close calls $close"},
-		{"make", "funcContext.translateBuiltin", `name:"make"/type:*types.Chan`, "new $Chan(⟨0⟩, ⟨1⟩)", "make(chan T, n) constructs $Chan(elem type, capacity)"},
-		{"len", "funcContext.translateBuiltin", `name:"len"/type:*types.Chan`, "⟨0⟩.$buffer.length", "len(ch) is the buffer length"},
-		{"cap", "funcContext.translateBuiltin", `name:"cap"`, "⟨0⟩.$capacity", "cap(ch) is the channel capacity"},
+		{"close", "funcContext.translateBuiltin", `_:"close"`, "$close(⟨0⟩)", "close calls $close"},
+		{"make", "funcContext.translateBuiltin", `_:"make"/type:*types.Chan`, "new $Chan(⟨0⟩, ⟨1⟩)", "make(chan T, n) constructs $Chan(elem type, capacity)"},
+		{"len", "funcContext.translateBuiltin", `_:"len"/type:*types.Chan`, "⟨0⟩.$buffer.length", "len(ch) is the buffer length"},
+		{"cap", "funcContext.translateBuiltin", `_:"cap"`, "⟨0⟩.$capacity", "cap(ch) is the channel capacity"},
 	} {
 		t := hasTemplate(c, w.fn, w.path, func(t *tmpl.Template) bool { return t.Text == w.text })
 		site := "compiler"
